@@ -134,6 +134,15 @@ type OverrideInitUintLiteral struct {
 
 func (OverrideInitUintLiteral) overrideInitExpr() {}
 
+// OverrideInitSintLiteral represents a literal i32 value (a literal with the
+// `i` suffix) for override init; a float64-based literal would round values
+// above 2^24 when it becomes an f32 global expression.
+type OverrideInitSintLiteral struct {
+	Value int32
+}
+
+func (OverrideInitSintLiteral) overrideInitExpr() {}
+
 // EntryPoint represents a shader entry point.
 // The Function is stored inline (not via FunctionHandle) because Rust naga
 // keeps entry-point functions separate from Module.functions[].
